@@ -499,7 +499,35 @@ def r19_11(ctx: Ctx) -> None:
                       "`c` exits 0 and `x` yields the input tree plus a bogus backup.7z", construct="archive packs itself")
 
 
+def r19_12(ctx: Ctx) -> None:
+    """'the exit status is 0 exactly when the requested operation succeeded': the status of a command is what its run_* method returns (`None`
+    becomes 0).  (a) No run_* method falls off its end or returns None: every normal way out is a `return <value>` (or `exit(...)`); (b) in `t` the
+    arm that reports a bad archive and every handler return a non-zero constant."""
+    cli = ctx.prog.cls("Cli", "cli")
+    n = 0
+    for name, f in sorted(cli.methods.items()):
+        if not name.startswith("run_") and name != "_run_list":
+            continue
+        n += 1
+        if not any(isinstance(r, ast.Return) and isinstance(r.value, ast.Constant) and isinstance(r.value.value, int) and r.value.value != 0 for r in walk(f.node)):
+            continue  # a command that reports no failure of its own (`i`): falling off the end is its status 0
+        cfg = cfg_of(f.node)
+        outs = [q.node_for(f, r) for r in walk(f.node) if isinstance(r, ast.Return) and r.value is not None and not (isinstance(r.value, ast.Constant) and r.value.value is None)]
+        outs += [q.node_for(f, c) for c in q.calls(f) if dotted(c.func) in ("exit", "sys.exit")]
+        ok = cfg.every_path_to_exit_passes(cfg.entry, outs)
+        ctx.check(ok, "R19.12", f, f.node, f"{name}: every way out carries a status",
+                  f"Cli.{name} can end without `return <status>` (it falls off its end, or returns None): the process exits with status 0 whatever happened on that path",
+                  construct=f"{name} falls off")
+    t = _cli(ctx, "run_test")
+    for h in [h for h in walk(t.node) if isinstance(h, ast.ExceptHandler)]:
+        rets = [r for r in ast.walk(h) if isinstance(r, ast.Return)]
+        ok = bool(rets) and all(isinstance(r.value, ast.Constant) and isinstance(r.value.value, int) and r.value.value != 0 for r in rets)
+        ctx.check(ok, "R19.12", t, h, "a failing `t` returns non-zero", f"the `except {norm(h.type) if h.type else ''}` handler of run_test does not return a non-zero status", construct="run_test handler status")
+    ctx.floor("R19.12", n, 5, "run_* methods of the CLI")
+
+
 def run(ctx: Ctx) -> None:
+    r19_12(ctx)
     r19_11(ctx)
     r19_10(ctx)
     r19_9(ctx)
